@@ -194,13 +194,31 @@ Proof. exact RxPipelineProofs.reset_only_with_peer_token. Qed.
 Theorem C06_reset_judge_model : forall c, RxPipeline.reset_judge c (RxPipeline.reset_run c) = true.
 Proof. exact RxPipelineProofs.reset_judge_run. Qed.
 
-(* rxpipe: the general statement "judge c (run c) = true for every well-formed case" is NOT proved
-   (time); what is checked here is one concrete history: packets 1000 and 871 sealed (871 = 1000 - 129),
-   delivery of #0, #1 (too old: code 4), #1 again, #0 again (duplicate: code 3) *)
-Example C06_rxpipe_judge_example_partial :
-  let c := [99; 8; 0; 1000; 2; 4; 1; 2; 3; 4; 0; 871; 2; 4; 9; 9; 9; 9; 1; 0; 1; 1; 1; 1; 1; 0]%Z in
-  RxPipeline.run c = [0; 1000; 4; 1; 2; 3; 4; 4; 4; 3]%Z /\ RxPipeline.judge c (RxPipeline.run c) = true.
-Proof. split; vm_compute; reflexivity. Qed.
+(* the executable rxpipe judgement accepts every run of the model, for every case *)
+Theorem C06_rxpipe_judge_model : forall c, RxPipeline.judge c (RxPipeline.run c) = true.
+Proof. exact RxPipelineProofs.rxpipe_judge_run. Qed.
+
+(* the instance the model executes (copies of sealed packets open, nothing else does) satisfies the
+   ideal-AEAD hypothesis, so the theorems above apply to the runs compared with the implementation *)
+Theorem C06_exec_instance_is_ideal : forall tbl,
+  ideal_aead RxPipeline.x_seal (RxPipeline.x_open tbl) (RxPipeline.x_sealed tbl).
+Proof. exact RxPipelineProofs.x_instance_ideal. Qed.
+
+(* the connection is closed only by reaching the integrity limit *)
+Theorem C06_closed_only_at_limit :
+  forall D unprot expand aead_open limit (ds : list D),
+  RxPipeline.closed (RxPipeline.rx_all D unprot expand aead_open limit RxPipeline.init ds) = true ->
+  limit <= RxPipeline.failures (RxPipeline.rx_all D unprot expand aead_open limit RxPipeline.init ds).
+Proof. exact RxPipelineProofs.closed_only_at_limit. Qed.
+
+(* non-vacuity: packets 10 and 11 sealed, integrity limit 3; #0 delivered; four garbled copies of the
+   processed #0 are dropped as Duplicate although 3 failures are reached (the limit error is looked at
+   after the duplicate check); the garbled copy of the fresh #1 closes the connection (6); #1 then 5 *)
+Example C06_rxpipe_example :
+  let c := [7; 8; 3; 0; 10; 2; 3; 1; 2; 3; 0; 11; 2; 3; 6; 5; 4; 1; 0;
+            2; 0; 27; 1; 2; 0; 27; 1; 2; 0; 27; 1; 2; 0; 27; 1; 2; 1; 27; 1; 1; 1]%Z in
+  RxPipeline.run c = [0; 10; 3; 1; 2; 3; 1; 1; 1; 1; 6; 5]%Z.
+Proof. vm_compute. reflexivity. Qed.
 
 Print Assumptions C06_hp_constants.
 Print Assumptions C06_hp_roundtrip.
@@ -222,3 +240,6 @@ Print Assumptions C06_replay_no_effect.
 Print Assumptions C06_acked_are_processed.
 Print Assumptions C06_reset_only_with_peer_token.
 Print Assumptions C06_reset_judge_model.
+Print Assumptions C06_rxpipe_judge_model.
+Print Assumptions C06_exec_instance_is_ideal.
+Print Assumptions C06_closed_only_at_limit.
